@@ -104,9 +104,18 @@ func (w *World) movesOf(fn *ssa.Function, flagField string, flagVal bool, seen m
 					out[m] = true
 				}
 				cc := x.Common()
-				if callee := cc.StaticCallee(); callee != nil && w.inPkg(callee) && callee.Signature.Recv() != nil && len(cc.Args) > 0 && isRecv(cc.Args[0]) {
-					for m := range w.movesOf(callee, "", false, seen) {
-						out[m] = true
+				if callee := cc.StaticCallee(); callee != nil && w.inPkg(callee) {
+					// a helper of this iterator: a method on the same receiver sees the
+					// same configuration flag; any other package function or method
+					// (an extracted walker, a shared iterator constructor) is followed as it is
+					ff, fv := "", false
+					if callee.Signature.Recv() != nil && len(cc.Args) > 0 && isRecv(cc.Args[0]) {
+						ff, fv = flagField, flagVal
+					}
+					if w.isIteratorHelper(callee, fn, cc) {
+						for m := range w.movesOf(callee, ff, fv, seen) {
+							out[m] = true
+						}
 					}
 				}
 				// iterating a locally constructed query
@@ -231,8 +240,26 @@ func ruleNFrame(w *World, r *Report) {
 
 // branchesOn: Select proper (not its closures) branches on recv.<field>.
 func (w *World) branchesOn(fn *ssa.Function, field string) bool {
-	if fn == nil {
+	return w.branchesOnD(fn, field, map[*ssa.Function]bool{})
+}
+
+func (w *World) branchesOnD(fn *ssa.Function, field string, seen map[*ssa.Function]bool) bool {
+	if fn == nil || seen[fn] {
 		return false
+	}
+	seen[fn] = true
+	// helper methods on the same receiver that Select proper calls
+	for _, b := range fn.Blocks {
+		for _, in := range b.Instrs {
+			if ci, ok := in.(ssa.CallInstruction); ok {
+				cc := ci.Common()
+				if c := cc.StaticCallee(); c != nil && w.inPkg(c) && c.Signature.Recv() != nil && len(cc.Args) > 0 && isRecv(cc.Args[0]) {
+					if w.branchesOnD(c, field, seen) {
+						return true
+					}
+				}
+			}
+		}
 	}
 	for _, b := range fn.Blocks {
 		if ifi := blockIf(b); ifi != nil {
@@ -502,4 +529,48 @@ func (w *World) ntDescribe(pred *ssa.Function, v ssa.Value, all int64) string {
 		}
 	}
 	return v.String()
+}
+
+// isQueryMethodOfOtherType: callee is a method of a query type other than the
+// one fn belongs to (running another query is not this iterator's own walk).
+func (w *World) isQueryMethodOfOtherType(callee, fn *ssa.Function) bool {
+	if callee.Signature.Recv() == nil {
+		return false
+	}
+	cn, ok := derefNamed(callee.Signature.Recv().Type())
+	if !ok || w.census.ByType[cn] == nil {
+		return false
+	}
+	root := rootFn(fn)
+	if root.Signature.Recv() == nil {
+		return true
+	}
+	fnN, ok := derefNamed(root.Signature.Recv().Type())
+	return !ok || fnN != cn
+}
+
+// isIteratorHelper: callee is part of the walk of the iterator fn belongs to:
+// a method on the same receiver, a function or method that returns an
+// iterator closure (func() NodeNavigator), or a method of a helper struct type
+// of the package that is not itself a query type (an extracted walker).
+// Functions that work on a cursor of their own (the identity key computed on
+// a copy) are not.
+func (w *World) isIteratorHelper(callee, fn *ssa.Function, cc *ssa.CallCommon) bool {
+	if callee.Signature.Recv() != nil && len(cc.Args) > 0 && isRecv(cc.Args[0]) {
+		return true
+	}
+	res := callee.Signature.Results()
+	for i := 0; i < res.Len(); i++ {
+		if sig, ok := res.At(i).Type().Underlying().(*types.Signature); ok && sig.Params().Len() == 0 && sig.Results().Len() == 1 && w.isNavType(sig.Results().At(0).Type()) {
+			return true
+		}
+	}
+	if callee.Signature.Recv() != nil {
+		if n, ok := derefNamed(callee.Signature.Recv().Type()); ok && n.Obj().Pkg() == w.Types && w.census.ByType[n] == nil {
+			if _, isStruct := n.Underlying().(*types.Struct); isStruct && !w.isNavType(n) {
+				return true
+			}
+		}
+	}
+	return false
 }
